@@ -190,11 +190,13 @@ func (b *batch) toBytes(name string, f func(p uint64) []byte) {
 	h := b.h
 	key := name + ":bytes-differ"
 	h.c.SetAdd("functions_swept", name)
+	var hh helperHold
 	for i, p := range b.pats {
 		g, r := f(p), b.be[i*b.width:(i+1)*b.width]
 		if !bytes.Equal(g, r) && h.rp.first(key) {
 			h.c.Fail(key, fmt.Sprintf("%s(%s) returned %x, the reference big-endian encoding is %x", name, b.hex(p), g, r), b.detail(i, nil))
 		}
+		b.helperOwn(name, &hh, i, g, r)
 	}
 	h.t.writesChecked += int64(len(b.pats))
 }
